@@ -430,6 +430,19 @@ def run(model, rep, tier):
                 else:
                     rep.bad("R-07.8", f.qualname, where(f, c), f"`{src(c)[:60]}` wraps the caller's mapping without copying it: the 'immutable' value changes when the source is mutated afterwards", stmt="dict-copy")
     rep.floor("R-07.8", n_dict, 3)
+    # the wrapper itself: it aliases its argument only when the caller asked for it (no_copy) - every other path copies into a fresh mapping
+    di = model.func("dns.immutable.Dict.__init__")
+    cdi = CFG(di.node, implicit_exc=False)
+    alias = [n for n in cdi.stmts() if isinstance(n.ast, ast.Assign) and isinstance(n.ast.value, ast.Name) and n.ast.value.id in di.params() and n.ast.value.id != "self"
+             and isinstance(n.ast.targets[0], ast.Attribute)]
+    gates = {(t.id, "t") for t in cdi.nodes if t.kind == "test" and isinstance(t.ast, ast.If) and normalise_compare(t.ast.test)[0] in ("and", "atom")
+             and any(a[0] == "no_copy" and a[1] == "truthy" for a in atoms(normalise_compare(t.ast.test)))}
+    if not alias:
+        rep.blind("R-07.8", di.qualname, where(di, di.node), "the aliasing store `self._odict = dictionary` was not found", stmt="dict-alias-gate")
+    for a in alias:
+        rep.check(bool(gates) and cdi.edge_dominated(a.id, gates), "R-07.8", di.qualname, where(di, a.ast), "the argument is kept (not copied) only under `no_copy and ...`",
+                  f"`{src(a.ast)}` is reachable without `no_copy` being true (the condition is not a conjunction containing no_copy): a plain dict passed by a caller is wrapped in place, "
+                  "so SVCB/HTTPS params and ImmutableRdataset items change when the caller's dict is edited afterwards", stmt="dict-alias-gate")
     rep.assume("R-07.5 considers the refusals raised by Rdataset.add itself; exceptions raised by callees (e.g. dns.ttl.make on an invalid TTL) are not followed")
     rep.meta["explanation"] = (
         "Decorator census over all value classes, provenance classification (reaching definitions) of every field store in their constructors, "
@@ -438,6 +451,8 @@ def run(model, rep, tier):
 
 
 WITNESSES = [
+    {"id": "c07-dict-aliases-without-no-copy", "rule": "R-07.8", "file": "dns/immutable.py", "expect": "fires",
+     "old": "        if no_copy and isinstance(dictionary, collections.abc.MutableMapping):", "new": "        if no_copy or isinstance(dictionary, collections.abc.MutableMapping):"},
     {"id": "c07-bitmap-keeps-callers-windows", "rule": "R-07.2", "file": "dns/rdtypes/util.py", "expect": "fires",
      "old": "        self.windows = [(window, bitmap) for window, bitmap in windows]\n", "new": "        self.windows = windows\n"},
     {"id": "c07-twin-bitmap-tuple-of-pairs", "rule": "R-07.2", "file": "dns/rdtypes/util.py", "expect": "silent",
